@@ -53,6 +53,26 @@ func checkConverge(cs *Case) (out outcome) {
 	out.maskedDiffs = map[string]int{}
 	a, b, c := mg.NewFSM(cs.Cfg), mg.NewFSM(cs.Cfg), mg.NewFSM(cs.Cfg)
 	strict := mg.DumpOpts{}
+	var lateSnap *metasvc.VerifSnapshot
+	var dumpAtCut any
+	defer func() {
+		if out.violation != "" || lateSnap == nil || cs.Cut >= len(cs.Ops)-1 {
+			return
+		}
+		late, err := lateSnap.Bytes()
+		if err != nil {
+			out.violation = fmt.Sprintf("persisting the snapshot taken after op %d at the end of the log failed: %v", cs.Cut, err)
+			return
+		}
+		d := mg.NewFSM(cs.Cfg)
+		if err := d.Restore(late); err != nil {
+			out.violation = fmt.Sprintf("restore of the snapshot taken after op %d and persisted at the end of the log failed: %v", cs.Cut, err)
+			return
+		}
+		if df := mg.Diff(dumpAtCut, mg.Dump(d.Data(), strict), 4); df != "" {
+			out.violation = fmt.Sprintf("the snapshot taken after op %d changed while the %d later commands were applied (persisted at the end of the log it restores to a different catalogue than persisted at once): %s", cs.Cut, len(cs.Ops)-1-cs.Cut, df)
+		}
+	}()
 	for i, o := range cs.Ops {
 		ra, pa := mg.SafeApply(a, i, o)
 		if pa != "" {
@@ -96,6 +116,14 @@ func checkConverge(cs *Case) (out outcome) {
 				out.violation = fmt.Sprintf("restore of the snapshot taken after op %d failed: %v", i, err)
 				return
 			}
+			// raft takes the snapshot object with Apply blocked but persists it while later commands are applied: the same
+			// snapshot is marshalled again at the end of the log and must restore to the same catalogue
+			lateSnap, err = b.SnapshotHandle()
+			if err != nil {
+				out.violation = fmt.Sprintf("snapshot after op %d failed: %v", i, err)
+				return
+			}
+			dumpAtCut = mg.Dump(c.Data(), strict)
 		}
 		if i > cs.Cut {
 			rc, pc := mg.SafeApply(c, i, o)
